@@ -14,11 +14,19 @@ CHECKS = {
         ref="5/C17"),
 }
 
+CHECKS["C09"] = dict(
+    text="The real stability_/damping_/control_/state_derivatives and derivatives() are executed symbolically (base state, pose, wind, control inputs and step sizes "
+         "symbolic) with the lifting-line solve replaced by an uninterpreted function of the stored physical state; z3 decides, for every returned key, equality with a "
+         "reference written from the documentation that perturbs fresh scenes through the public API; key sets compared exactly. Bounded: one aircraft family member (N=8), listed frame selections.",
+    note="LLsolve and AeroADT stubs (contracts stated in evidence); reals not floats; unit quaternion; uniform wind; counterexamples are replayed on the real code with the real solver.",
+    technique="bounded symbolic execution of the real analyses with contract stubs + z3 equality obligations vs a reference model; replay on real code",
+    ref="5/C09")
+
 NOT_APPLICABLE = {
     "C18": "classical lifting-line limits: a convergence statement about the N>=20 discrete solution (value and rate under grid refinement); no bounded SMT encoding of the 40x40 transcendental system is within reach and the small N the engine handles is where the claim is not expected to hold",
 }
 
-PENDING = {'C01': 'check not yet landed in this round (engine under construction); see DESIGN.md section 5', 'C02': 'check not yet landed in this round (engine under construction); see DESIGN.md section 5', 'C03': 'check not yet landed in this round (engine under construction); see DESIGN.md section 5', 'C04': 'check not yet landed in this round (engine under construction); see DESIGN.md section 5', 'C05': 'check not yet landed in this round (engine under construction); see DESIGN.md section 5', 'C06': 'check not yet landed in this round (engine under construction); see DESIGN.md section 5', 'C07': 'check not yet landed in this round (engine under construction); see DESIGN.md section 5', 'C08': 'check not yet landed in this round (engine under construction); see DESIGN.md section 5', 'C09': 'check not yet landed in this round (engine under construction); see DESIGN.md section 5', 'C10': 'check not yet landed in this round (engine under construction); see DESIGN.md section 5', 'C11': 'check not yet landed in this round (engine under construction); see DESIGN.md section 5', 'C12': 'check not yet landed in this round (engine under construction); see DESIGN.md section 5', 'C13': 'check not yet landed in this round (engine under construction); see DESIGN.md section 5', 'C14': 'check not yet landed in this round (engine under construction); see DESIGN.md section 5', 'C15': 'check not yet landed in this round (engine under construction); see DESIGN.md section 5', 'C16': 'check not yet landed in this round (engine under construction); see DESIGN.md section 5', 'C19': 'check not yet landed in this round (engine under construction); see DESIGN.md section 5', 'C20': 'check not yet landed in this round (engine under construction); see DESIGN.md section 5'}
+PENDING_REASON = "check not yet landed (framework under construction); see DESIGN.md section 5"
 
 
 def main():
@@ -36,7 +44,8 @@ def main():
             "level_note": c["note"],
             "technique": c["technique"],
         })
-    na = [{"property_id": k, "reason": v} for k, v in sorted({**NOT_APPLICABLE, **PENDING}.items())]
+    pending = {"C%02d" % i: PENDING_REASON for i in range(1, 21) if "C%02d" % i not in CHECKS and "C%02d" % i not in NOT_APPLICABLE}
+    na = [{"property_id": k, "reason": v} for k, v in sorted({**NOT_APPLICABLE, **pending}.items())]
     m = {
         "version": 1,
         "setup_cmd": "./setup.sh",
